@@ -38,7 +38,7 @@ CLASSES = {
     "C11": {"stopped-outside-closed-subtree", "cascade-incomplete", "shutdown-timeout", "closed-before-drained", "close-hangs", "api-call-blocks", "goroutine-leak", "runaway-goroutine"} | ORDER,
     "C12": {"goroutine-leak", "shutdown-timeout", "close-hangs", "call-blocks-after-done", "call-fails-after-done", "closed-before-drained", "api-call-blocks",
             "racing-call-zombie", "runaway-goroutine"},
-    "C16": {"callbacks-overlap", "initialize-not-first-or-twice", "callback-before-ready", "callback-after-done", "initialize-not-cache-content",
+    "C16": {"monitor-history-not-allowed", "modesmon-error", "callbacks-overlap", "initialize-not-first-or-twice", "callback-before-ready", "callback-after-done", "initialize-not-cache-content",
             "callback-before-initialize", "callback-not-next-event", "callback-of-unknown-monitor", "stuck-at-quiescence", "monitor-not-initialized"},
 }
 # (variant, share of the scenario budget)
@@ -228,6 +228,7 @@ def check_tree(prop, tier, replay):
         js = fam_filters.run_joins(res, tier, {"join-ready-before-sides", "join-content-before-ready", "join-not-ready", "crash"})
         nscen += js["scenarios"]
     modes = None
+    modesmon = None
     if prop in ("C06", "C07", "C08"):
         # spec -> code: every stimulus order enumerated by TLC, replayed on the real filterSubscription
         modes = run_modes(res, tier, MODES_CLASSES | {"crash"})
@@ -255,6 +256,11 @@ def check_tree(prop, tier, replay):
         lines += st["lines"]
         # unbounded (any MaxEvents, any buffer) counterpart of Monitor.cfg's Serial / InitFirstOnce / InOrder
         mnames = mnames + [vlib.prove("MonitorProofs")]
+        # spec -> code: every order of the monitor's stimuli replayed on the real monitor
+        modesmon = run_modes_mon(res, tier, {"callbacks-overlap", "initialize-not-cache-content", "initialize-not-first-or-twice", "monitor-history-not-allowed", "modesmon-error", "crash"})
+        nscen += modesmon["replays"]
+        mdist += modesmon["states"]
+        mgen += modesmon["generated"]
     res.coverage = {
         "states": mdist, "transitions": mgen, "design_models": mnames,
         "traces_validated_against_impl": nscen,
@@ -267,6 +273,7 @@ def check_tree(prop, tier, replay):
         "not_quiescent_lines": allcls.get("not-quiescent", 0),
         "trace_line_kinds_seen": allcls.get("__kinds__", {}),
         "trace_line_kinds_never_seen_in_this_run": sorted(k for k, v in allcls.get("__kinds__", {}).items() if v == 0),
+        "mode_s_monitor": modesmon,
         "mode_s": None if modes is None else {"stimulus_orders_replayed": modes["orders"], "max_length": modes["maxlen"], "exhaustive": True, "sample": modes["samples"][:1]},
     }
     res.assumptions = [
@@ -275,6 +282,70 @@ def check_tree(prop, tier, replay):
         "quiescence = every library and harness-worker goroutine blocked in two consecutive stop-the-world stack dumps with no trace progress in between",
     ]
     return res.finish()
+
+
+def run_modes_mon(res, tier, want):
+    """Spec -> code for the monitor: TLC enumerates every order of {ready, publish, close, handler returns} (ModeSMon.tla)
+    with every history the specification allows; the harness replays each order on the real monitor; TLC compares."""
+    import json as _json
+    sc = vlib.scratch()
+    h = vlib.build_harness()
+    n = 5 if tier == "quick" else 7
+    rc, out = vlib.run_tlc("ModeSMon.tla", open(os.path.join(vlib.SPEC, "cfg", "ModeSMon-%d.cfg" % n)).read(), workers=4, heap="6g", timeout=1800)
+    if rc != 0 or "No error has been found" not in out:
+        raise Inconclusive("ModeSMon.tla (%d): the model is refuted or TLC failed: %s" % (n, out[-2000:]))
+    gen, states = vlib.tlc_stats(out)
+    beh = collections.OrderedDict()
+    for m in re.finditer(r'<<"BEH", (".*")>>', out):
+        b = _json.loads(_json.loads(m.group(1)))
+        beh.setdefault(tuple(b["stim"]), set()).add(_json.dumps(b["hist"], sort_keys=True))
+    expect = sum(4 ** k for k in range(1, n + 1))
+    if len(beh) != expect:
+        raise Inconclusive("ModeSMon.tla printed %d orders, expected %d" % (len(beh), expect))
+    bf = os.path.join(sc, "monbeh.ndjson")
+    with open(bf, "w") as f:
+        for st, hs in beh.items():
+            f.write('{"stim":%s,"preds":[%s]}\n' % (_json.dumps(list(st)), ",".join(sorted(hs))))
+    nsh = 8 if tier == "quick" else 16
+    cmds, outs = [], []
+    for s_ in range(nsh):
+        o = os.path.join(sc, "modesmon-%d.ndjson" % s_)
+        outs.append(o)
+        cmds.append(([h, "modesmon", "-in", bf, "-out", o, "-shards", str(nsh), "-shard", str(s_), "-repeat", "2"], o + ".log", None))
+    rcs = vlib.run_parallel(cmds, timeout=2400, maxpar=16)
+    good = []
+    for rc2, o in zip(rcs, outs):
+        lg = open(o + ".log").read()
+        if rc2 != 0:
+            if "panic" in lg or "fatal error" in lg:
+                res.classify("crash", "modesmon driver died: " + lg[:1500])
+                continue
+            raise Inconclusive("modesmon driver failed: " + lg[-500:])
+        good.append(o)
+    dj = vlib.tlc_dir(None)
+    cfgp = os.path.join(dj, "m.cfg")
+    open(cfgp, "w").write(MODES_CFG)
+    tl = [(vlib.tlc_argv(dj, "ModeSMonRecords.tla", cfgp, workers=1, heap="2g", procs=2), o + ".tlc", {"VT_TRACE": o}, dj) for o in good]
+    rcs = vlib.run_parallel(tl, timeout=1800, maxpar=8)
+    total = 0
+    multi = sum(1 for v in beh.values() if len(v) > 1)
+    sample = None
+    for rc3, o in zip(rcs, good):
+        outj = open(o + ".tlc").read()
+        nrec = sum(1 for _ in open(o))
+        m = re.search(r'<<"CONSUMED", (\d+)>>', outj)
+        if rc3 != 0 or not m or int(m.group(1)) != nrec:
+            raise Inconclusive("TLC did not consume %s: %s" % (o, outj[-1500:]))
+        total += nrec
+        for (ln, cls, txt) in vlib.verdicts(outj):
+            if cls in want:
+                res.classify(cls, txt, artefact={"file": os.path.basename(o), "line": ln})
+        if sample is None:
+            with open(o) as fh:
+                ls = fh.readlines()
+                sample = _json.loads(ls[len(ls) // 2])
+    log("mode S (monitor): %d replays of %d stimulus orders (length <= %d; %d orders with more than one allowed history)" % (total, len(beh), n, multi))
+    return {"orders": len(beh), "replays": total, "maxlen": n, "states": states, "generated": gen, "orders_with_choice": multi, "sample": sample}
 
 
 MODES_CLASSES = {"modes-exists", "ready-too-early", "not-ready", "content-differs", "event-before-ready", "events-differ"}
